@@ -2,7 +2,7 @@
    everything that goes through pow / ln / erf lives in libm and is decided by the scan only. *)
 From Coq Require Import ZArith QArith List Bool Reals Floats Qreals.
 From Flocq Require Import Core.
-From V Require Import F64 FExact FInt Accuracy AccuracyProofs AccCases AccFloatProofs.
+From V Require Import F64 FExact FInt Accuracy AccuracyProofs AccCases AccFloatProofs FDy FOps StrainsVec Aggregate WSumProofs.
 Import ListNotations.
 
 (* accuracies lie in [0, 1] for every state with non-negative counts, every origin, the
@@ -57,3 +57,19 @@ Theorem C09_osu_float_accuracy : forall o n300 n100 n50 misses ends large small,
   fin f /\ (0 <= RV f <= 1)%R.
 Proof. exact osu_facc_unit. Qed.
 Print Assumptions C09_osu_float_accuracy.
+
+(* the same bound on the binary64 value `difficulty_value` computes (for strain in peaks: difficulty +=
+   strain * weight; weight *= decay): finite peaks in [0, 2^k] and a decay weight in [0, 1] give a
+   finite, non-negative result of at most n * 2^k - no overflow, no NaN, for up to 2^52 peaks *)
+Theorem C09_weighted_sum_float : forall (k : Z) (decay : PrimFloat.float), (0 <= k <= 900)%Z ->
+  fin decay -> (0 <= RV decay <= 1)%R ->
+  forall ps : list PrimFloat.float, Forall (peak_ok k) ps -> (Z.of_nat (length ps) < 2 ^ 52)%Z ->
+  let v := fst (wsum_f decay ps (0%float, 1%float)) in
+  fin v /\ (0 <= RV v <= IZR (Z.of_nat (length ps)) * bpow radix2 k)%R.
+Proof. exact wsum_f_bound. Qed.
+Print Assumptions C09_weighted_sum_float.
+
+Theorem C09_weighted_sum_is_model : forall decay peaks,
+  weighted_sum decay peaks = fst (wsum_f decay (map of_bits peaks) (0%float, 1%float)).
+Proof. exact weighted_sum_f. Qed.
+Print Assumptions C09_weighted_sum_is_model.
